@@ -157,6 +157,8 @@ impl Gossip {
         if let Some((to_gossip_tx, from_gossip_tx, guard)) = self.senders.read().await.get(&topic)
             && guard.has_subscriptions()
         {
+            #[cfg(p2panda_p2panda_verif)]
+            verif_c29::schedule_point("stream:check-clone");
             return Ok(GossipHandle::new(
                 topic,
                 max_message_size,
@@ -166,6 +168,8 @@ impl Gossip {
             ));
         }
 
+        #[cfg(p2panda_p2panda_verif)]
+        verif_c29::schedule_point("stream:lookup-missed");
         // If there's no active handle for this topic we join the overlay from scratch.
         let inner = self.inner.read().await;
 
@@ -190,6 +194,8 @@ impl Gossip {
                 .collect()
         };
 
+        #[cfg(p2panda_p2panda_verif)]
+        verif_c29::schedule_point("stream:before-subscribe");
         // Register a new session with the gossip actor.
         let (to_gossip_tx, from_gossip_tx) =
             call!(inner.actor_ref, ToGossipManager::Subscribe, topic, node_ids)
@@ -199,6 +205,8 @@ impl Gossip {
         //
         // `from_gossip_tx` is used to create a broadcast receiver when the user calls
         // `subscribe()` on `GossipHandle`.
+        #[cfg(p2panda_p2panda_verif)]
+        verif_c29::schedule_point("stream:before-insert");
         let mut senders = self.senders.write().await;
         senders.insert(
             topic,
@@ -500,10 +508,172 @@ impl Drop for TopicDropGuard {
                 "send unsubscribe message"
             );
 
+            #[cfg(p2panda_p2panda_verif)]
+            verif_c29::schedule_point("drop:before-unsubscribe");
             // Ignore this error, it could be that the actor has already stopped.
             let _ = self
                 .actor_ref
                 .send_message(ToGossipManager::Unsubscribe(self.topic));
+        }
+    }
+}
+
+/// Verification hook (add-only, compiled only with `--cfg p2panda_p2panda_verif`): schedule-point
+/// callbacks inside `Gossip::stream` / `TopicDropGuard::drop`, a probe standing in for the gossip
+/// manager actor (records `Subscribe` / `Unsubscribe`, never touches the network), a `Gossip` bound to
+/// such a probe, read accessors for the reference counter and a test constructor for the guard.
+#[cfg(p2panda_p2panda_verif)]
+pub mod verif_c29 {
+    use std::sync::atomic::{AtomicUsize, Ordering};
+    use std::sync::{Arc, Mutex, RwLock as StdRwLock};
+
+    use p2panda_core::Topic;
+    use ractor::thread_local::{ThreadLocalActor, ThreadLocalActorSpawner};
+    use ractor::{ActorProcessingErr, ActorRef};
+    use tokio::sync::{broadcast, mpsc};
+
+    use super::{Gossip, GossipHandle, TopicDropGuard};
+    use crate::NodeId;
+    use crate::address_book::AddressBook;
+    use crate::gossip::GossipConfig;
+    use crate::gossip::actors::ToGossipManager;
+
+    pub type SchedulePoint = Arc<dyn Fn(&'static str) + Send + Sync>;
+
+    static SCHEDULE_POINT: StdRwLock<Option<SchedulePoint>> = StdRwLock::new(None);
+
+    /// Installs (or removes) the process-wide schedule-point callback. Points:
+    /// `stream:check-clone`, `stream:lookup-missed`, `stream:before-subscribe`,
+    /// `stream:before-insert`, `drop:before-unsubscribe`.
+    pub fn set_schedule_point(callback: Option<SchedulePoint>) {
+        *SCHEDULE_POINT.write().expect("schedule point lock") = callback;
+    }
+
+    pub(super) fn schedule_point(name: &'static str) {
+        let callback = SCHEDULE_POINT.read().expect("schedule point lock").clone();
+        if let Some(callback) = callback {
+            callback(name);
+        }
+    }
+
+    #[derive(Clone, Copy, Debug, PartialEq, Eq)]
+    pub enum ProbeEvent {
+        Subscribe(Topic),
+        Unsubscribe(Topic),
+    }
+
+    /// What the stand-in gossip manager received, in mailbox order.
+    #[derive(Clone, Debug, Default)]
+    pub struct Probe {
+        events: Arc<Mutex<Vec<ProbeEvent>>>,
+    }
+
+    impl Probe {
+        pub fn events(&self) -> Vec<ProbeEvent> {
+            self.events.lock().expect("probe lock").clone()
+        }
+
+        pub async fn spawn_actor(&self) -> ActorRef<ToGossipManager> {
+            let (actor_ref, _) =
+                ProbeManager::spawn(None, self.clone(), ThreadLocalActorSpawner::new())
+                    .await
+                    .expect("spawn probe gossip manager");
+            actor_ref
+        }
+    }
+
+    #[derive(Default)]
+    struct ProbeManager;
+
+    impl ThreadLocalActor for ProbeManager {
+        type State = Probe;
+        type Msg = ToGossipManager;
+        type Arguments = Probe;
+
+        async fn pre_start(
+            &self,
+            _myself: ActorRef<Self::Msg>,
+            args: Self::Arguments,
+        ) -> Result<Self::State, ActorProcessingErr> {
+            Ok(args)
+        }
+
+        async fn handle(
+            &self,
+            myself: ActorRef<Self::Msg>,
+            message: Self::Msg,
+            state: &mut Self::State,
+        ) -> Result<(), ActorProcessingErr> {
+            match message {
+                ToGossipManager::Subscribe(topic, _nodes, reply) => {
+                    state
+                        .events
+                        .lock()
+                        .expect("probe lock")
+                        .push(ProbeEvent::Subscribe(topic));
+                    let (to_gossip_tx, _to_gossip_rx) = mpsc::channel(128);
+                    let (from_gossip_tx, _from_gossip_rx) = broadcast::channel(128);
+                    let _ = reply.send((to_gossip_tx, from_gossip_tx));
+                }
+                ToGossipManager::Unsubscribe(topic) => {
+                    state
+                        .events
+                        .lock()
+                        .expect("probe lock")
+                        .push(ProbeEvent::Unsubscribe(topic));
+                }
+                ToGossipManager::Shutdown => {
+                    myself.stop(None);
+                }
+                _ => {}
+            }
+            Ok(())
+        }
+    }
+
+    impl Gossip {
+        /// A `Gossip` whose manager actor is the probe: no endpoint, no overlay.
+        pub async fn verif_with_probe(my_node_id: NodeId, address_book: AddressBook) -> (Self, Probe) {
+            let probe = Probe::default();
+            let actor_ref = probe.spawn_actor().await;
+            (
+                Gossip::new(actor_ref, my_node_id, address_book, GossipConfig::default()),
+                probe,
+            )
+        }
+    }
+
+    impl GossipHandle {
+        /// Current value of the topic's reference counter.
+        pub fn verif_counter(&self) -> usize {
+            self._guard.counter()
+        }
+
+        /// The counter cell itself (identifies the subscription this handle belongs to).
+        pub fn verif_counter_cell(&self) -> Arc<AtomicUsize> {
+            self._guard.counter.clone()
+        }
+    }
+
+    /// A bare `TopicDropGuard` bound to a probe.
+    #[derive(Debug)]
+    pub struct VerifGuard(TopicDropGuard);
+
+    impl VerifGuard {
+        pub fn new(topic: Topic, actor_ref: ActorRef<ToGossipManager>) -> Self {
+            VerifGuard(TopicDropGuard::new(topic, actor_ref))
+        }
+
+        pub fn counter(&self) -> usize {
+            self.0.counter.load(Ordering::SeqCst)
+        }
+
+        pub fn clone_counting(&self) -> Self {
+            VerifGuard(self.0.clone())
+        }
+
+        pub fn clone_without_increment(&self) -> Self {
+            VerifGuard(self.0.clone_without_increment())
         }
     }
 }
